@@ -30,6 +30,8 @@ func runC19(c *core.Ctx) {
 	c.Rule("R4", "one sign convention for all Comparable implementations, and the descriptor comparator uses it consistently (ascending: key1 vs key2, descending: swapped; strict final test)", 3)
 	c.Rule("R5", "lexicographic recursion: next descriptor exactly on result == 0 && hasNext, its verdict returned", 1)
 	c.Rule("R6", "ToSortedList/SortedListBySortDescriptors sort a fresh copy; the descriptor builder starts with no spare capacity", 2)
+	c.Rule("R7", "descriptor constructors record the requested direction: the descriptor a constructor returns answers IsAscending() with the constructor's bool argument (the field IsAscending reads is assigned that argument in the returned object)", 2)
+	c19constructors(c)
 	// ---- R1: all calls into package sort
 	nSites := 0
 	for _, f := range p.Funcs {
@@ -805,4 +807,163 @@ func c19hasNextFact(cnd core.Cond, list *ssa.Parameter, idx ssa.Value) bool {
 		}
 	})
 	return found
+}
+
+
+// c19constructors (R7): for every package-level function of the library that takes a bool and returns a (struct) type
+// with an IsAscending method: in the object it returns, the field IsAscending reads holds that bool.
+func c19constructors(c *core.Ctx) {
+	p := c.P
+	// the field read by IsAscending, per declaring type
+	dirField := map[string]string{} // receiver type name -> field key
+	for _, f := range p.Funcs {
+		if f.Parent() == nil && f.Pkg == p.Fpgo && f.Signature.Recv() != nil && f.Name() == "IsAscending" {
+			if r := core.ThinReturn(f); r != nil {
+				if k := core.FieldKey(r); k != "" {
+					dirField[core.TypeName(f.Signature.Recv().Type())] = k
+				}
+			}
+		}
+	}
+	hasDir := func(t types.Type) string {
+		// the direction field reachable in t (own or through an embedded struct)
+		var walk func(t types.Type, depth int) string
+		walk = func(t types.Type, depth int) string {
+			if k, ok := dirField[core.TypeName(t)]; ok {
+				return k
+			}
+			st, isSt := t.Underlying().(*types.Struct)
+			if !isSt || depth > 2 {
+				return ""
+			}
+			for i := 0; i < st.NumFields(); i++ {
+				if st.Field(i).Embedded() {
+					if k := walk(st.Field(i).Type(), depth+1); k != "" {
+						return k
+					}
+				}
+			}
+			return ""
+		}
+		return walk(t, 0)
+	}
+	var decide func(f *ssa.Function, depth int) (bool, string)
+	decide = func(f *ssa.Function, depth int) (bool, string) {
+		k := hasDir(f.Signature.Results().At(0).Type())
+		var flag *ssa.Parameter
+		for _, prm := range f.Params {
+			if b, isB := prm.Type().Underlying().(*types.Basic); isB && b.Kind() == types.Bool {
+				flag = prm
+			}
+		}
+		if k == "" || flag == nil {
+			return false, "no direction field / bool parameter"
+		}
+		ok, detail := true, "the direction field holds the bool argument in the returned descriptor"
+		n := 0
+		core.Instrs(f, func(ins ssa.Instruction) {
+			r, isR := ins.(*ssa.Return)
+			if !isR || r.Block() == f.Recover {
+				return
+			}
+			n++
+			v := core.Resolve(core.RetVals(r)[0])
+			if call, isC := v.(*ssa.Call); isC && depth < 2 {
+				// delegation to another constructor with the flag in its bool position
+				if g := core.Callee(&call.Call); g != nil && p.InRepo(g) && len(g.Blocks) > 0 {
+					for i, prm := range g.Params {
+						if b, isB := prm.Type().Underlying().(*types.Basic); isB && b.Kind() == types.Bool && i < len(call.Call.Args) && core.Resolve(call.Call.Args[i]) == ssa.Value(flag) {
+							if okG, _ := decide(g, depth+1); okG {
+								return
+							}
+						}
+					}
+				}
+			}
+			ld, isLd := v.(*ssa.UnOp)
+			var obj *ssa.Alloc
+			if isLd && ld.Op == token.MUL {
+				obj, _ = ld.X.(*ssa.Alloc)
+			}
+			if a, isA := v.(*ssa.Alloc); isA {
+				obj = a // &T{...} returned as pointer
+			}
+			if obj == nil {
+				ok, detail = false, "the returned descriptor is not an object built in the constructor: cannot see its direction"
+				return
+			}
+			// stores into the direction field of obj (possibly through the embedded struct), all before the return
+			found := false
+			core.Instrs(f, func(i2 ssa.Instruction) {
+				st, isS := i2.(*ssa.Store)
+				if !isS {
+					return
+				}
+				fa, isFA := st.Addr.(*ssa.FieldAddr)
+				if !isFA {
+					return
+				}
+				root := ssa.Value(fa)
+				for {
+					x, isX := root.(*ssa.FieldAddr)
+					if !isX {
+						break
+					}
+					root = x.X
+				}
+				if root != ssa.Value(obj) {
+					return
+				}
+				if core.FieldKey(fa) == k {
+					if core.Resolve(st.Val) == ssa.Value(flag) && core.InstrDominates(st, r) {
+						found = true
+					} else {
+						ok, detail = false, "the direction field is assigned something other than the constructor's bool argument"
+					}
+					return
+				}
+				// an embedded descriptor stored whole from another constructor
+				if hasDir(fa.Type().(*types.Pointer).Elem()) == k && depth < 2 {
+					if call, isC := core.Resolve(st.Val).(*ssa.Call); isC {
+						if g := core.Callee(&call.Call); g != nil && p.InRepo(g) && len(g.Blocks) > 0 {
+							for i, prm := range g.Params {
+								if b, isB := prm.Type().Underlying().(*types.Basic); isB && b.Kind() == types.Bool && i < len(call.Call.Args) && core.Resolve(call.Call.Args[i]) == ssa.Value(flag) {
+									if okG, _ := decide(g, depth+1); okG && core.InstrDominates(st, r) {
+										found = true
+									}
+								}
+							}
+						}
+					}
+				}
+			})
+			if !found && ok {
+				ok, detail = false, "the returned descriptor's direction field is never assigned the constructor's bool argument (e.g. set through a value-receiver setter, which changes a copy): every descriptor built this way reports ascending=false"
+			}
+		})
+		if n == 0 {
+			return false, "no return"
+		}
+		return ok, detail
+	}
+	for _, f := range p.Funcs {
+		if f.Parent() != nil || f.Pkg != p.Fpgo || f.Signature.Recv() != nil || f.Object() == nil || !f.Object().Exported() || f.Signature.Results().Len() != 1 {
+			continue
+		}
+		if hasDir(f.Signature.Results().At(0).Type()) == "" {
+			continue
+		}
+		hasBool := false
+		for _, prm := range f.Params {
+			if b, isB := prm.Type().Underlying().(*types.Basic); isB && b.Kind() == types.Bool {
+				hasBool = true
+			}
+		}
+		if !hasBool {
+			continue
+		}
+		c.Analysed(core.FuncName(f))
+		ok, detail := decide(f, 0)
+		c.Check(ok, "R7", f.Name(), p.Pos(f.Pos()), detail, detail)
+	}
 }
